@@ -285,7 +285,7 @@ fn record(out: &str, a: &Args) {
     let mut rng = Rng::new(a.num("--seed", 1));
     let n = a.num("--n", 200);
     let mut evs: Vec<Value> = vec![];
-    for _ in 0..n {
+    while (evs.len() as u64) < n {
         let asz = *rng.pick(&[4u8, 8]);
         let m: u64 = if asz == 8 { u64::MAX } else { 0xffff_ffff };
         let ver = *rng.pick(&[2u16, 3, 4, 5, 5]);
@@ -355,6 +355,14 @@ fn record(out: &str, a: &Args) {
                 ents.push(e);
             }
             lists.push(LSpec { loc, ents });
+        }
+        // Units whose pair-format lists contain the all-ones word as a first word are
+        // decided by the exhaustive model (MCListWriter); keep only 1 in 40 of them here so
+        // that the sampled traces are not dominated by that one situation.
+        let marker = ver <= 4
+            && lists.iter().any(|l| l.ents.iter().any(|e| e.k != "base" && e.k != "defloc" && e.a == m));
+        if marker && !rng.chance(1, 40) {
+            continue;
         }
         let o = guarded(|| run_unit(ver, fmt, asz, le, lp, &lists, true));
         let lj: Vec<Value> = lists
